@@ -6,6 +6,7 @@ import (
 	"github.com/aws/aws-sdk-go-v2/aws"
 	"github.com/aws/aws-sdk-go-v2/service/dynamodb"
 	dynamodbtypes "github.com/aws/aws-sdk-go-v2/service/dynamodb/types"
+	"github.com/aws/smithy-go"
 	"github.com/truora/minidyn/core"
 	"github.com/truora/minidyn/types"
 )
@@ -685,7 +686,8 @@ func mapKnownError(err error) error {
 		return &dynamodbtypes.ResourceNotFoundException{Message: aws.String(intErr.Message())}
 	}
 
-	return err
+	// every other coded error of the core (ValidationException, ...) is an API error too, as it is for the SDK v1 client
+	return &smithy.GenericAPIError{Code: intErr.Code(), Message: intErr.Message()}
 }
 
 // the stored items must not share memory with the structures of the caller: byte slices that cross the API are copied
